@@ -159,8 +159,24 @@ def projection_claim(shape):
     return claim
 
 
+def projection_detector_claim(shape):
+    """the projected exit wave, sent through the detector model, shows exactly the measured pattern
+    (this fixes the centring convention: measured amplitudes are detector-centred)"""
+    def claim(I):
+        with I.patch_torch(pty, pb, det):
+            overlap = I.tensor("psi", (1, 1) + shape, "complex")
+            amps = I.tensor("amp", (1,) + shape, lo=0, hi=2, nonneg=True)
+            ns = types.SimpleNamespace(num_probes=1)
+            out = pty.Ptychography.fourier_projection(ns, amps, overlap)
+            inten = det.DetectorPixelated.forward(None, out)
+            return [Rel("detector_sees_the_measured_pattern", inten, amps * amps, tol=1e-9, ntol=1e-4)]
+    return claim
+
+
 def cases(tier):
     out = []
+    for sh in ((1, 2), (1, 3), (3, 1), (2, 2)):
+        out.append((f"fourier_projection_detector[{sh}]", projection_detector_claim(sh), dict(logic="QF_NRA")))
     for sh in ((2, 2), (4, 2), (2, 4)):
         out.append((f"translation[{sh};energy_additive]", translation_claim(sh, "energy_additive"), dict(logic="QF_NRA")))
         out.append((f"translation[{sh};integer_roll]", translation_claim(sh, "roll"), dict(logic="QF_LRA")))
